@@ -165,6 +165,7 @@ Inductive cout :=
 | OMembers (c : conn) (id : N) (l : list user)
 | OChannels (c : conn) (id : N) (l : list chan)
 | OAcl (c : conn) (id : N) (l : list user)
+| ODirect (c : conn) (payload : N)                (* MOD_DIRECT pushed by the modulator (M2S) *)
 | OModEvent (kind : N) (ch : chan) (u : user) (own : bool)
 | OModPayload (from : user) (ch : chan) (payload : N).
 
@@ -407,7 +408,14 @@ Inductive ev :=
 | EReq (c : conn) (r : req)                             (* a request frame is read: its task is spawned *)
 | ERun (t : tid) (ok : bool) (hint : user)              (* task t runs one segment *)
 | EHangup (c : conn) (hint : chan)                      (* the connection ends (peer, error path or requested close) *)
-| EDrop (t : tid).                                      (* request time-out: the request is dropped where it stands *)
+| EDrop (t : tid)                                       (* request time-out: the request is dropped where it stands *)
+| EDirect (targets : list user) (payload : N).          (* the modulator pushes a private payload to these users (M2S_MOD_DIRECT) *)
+
+(* route_m2s_private_payload: every connection registered for each DISTINCT target, at that moment *)
+Fixpoint dedup (l : list N) : list N :=
+  match l with [] => [] | x :: r => x :: del x (dedup r) end.
+Definition direct_outs (g : gst) (targets : list user) (payload : N) : list cout :=
+  flat_map (fun u => map (fun c => ODirect c payload) (reg g u)) (dedup targets).
 
 Definition cstep (cf : ccfg) (s : cstate) (e : ev) : cstate * list cout :=
   let g := cg s in
@@ -461,6 +469,7 @@ Definition cstep (cf : ccfg) (s : cstate) (e : ev) : cstate * list cout :=
                   | Some _ => ({| cg := release_of g k; tasks := tremove t (tasks s); next_tid := next_tid s |}, [])
                   end
       end
+  | EDirect targets payload => (s, direct_outs g targets payload)
   end.
 
 Fixpoint crun (cf : ccfg) (s : cstate) (es : list ev) : cstate * list cout :=
